@@ -52,7 +52,7 @@ def signature_of(lines, impl, model, diff):
 
 
 def run(ctx):
-    n = ctx.scale(400, 12000)
+    n = ctx.scale(2000, 150000)
     sched_suite.run_suite(ctx, PROF, n, "c02", [oracle], sounding_at_change, signature_of)
 
 
